@@ -329,6 +329,41 @@ def run(ck):
         ck.verdict(bad is None, 'C13.d', fn, cast.where(u.fn(fn)),
                    'prefix for n then payload window (buf, n); refusal returned before the payload is set' if bad is None else bad)
 
+    # ---- C13.d totals keep their width ------------------------------------------------------------------------
+    # The reported total is prefix length + payload length, up to 2^32 + 4 for the 32-bit kinds: a result that passes
+    # through a narrower object on its way out (an `int` local) comes back truncated or as a bogus negative "error".
+    nfn = 0
+    for fn in sorted(f for f in u.functions_in_file('length-prefix.c') if u.body(f) is not None):
+        rt = cast.qual_type(u.fn(fn)).split('(')[0].strip()
+        if rt not in ('ssize_t', 'long', 'size_t', 'unsigned long'):
+            continue
+        ps = paths(fn)
+        if ps is None:
+            continue
+        nfn += 1
+        bad = None
+        for p in ps:
+            if p.ret is None:
+                continue
+            for x in sym.subterms(p.ret):
+                if x[0] == 'cast' and x[1] in eng.INT_MAX_OF and not sym.is_c(x[2]):
+                    inner = x[2]
+                    # results that can be as large as a payload: totals of the unit's own entry points, or transfers whose
+                    # count involves a parameter of this function (the prefix itself is a handful of octets)
+                    params = {('v', q['name']) for q in u.params(fn)}
+                    wide = [y for y in sym.subterms(inner) if y[0] == 'call' and
+                            (y[1].startswith(('flenp_', 'lenp_')) or any(sym.contains(a, q) for a in y[2][2:] for q in params if isinstance(a, tuple)))]
+                    if not wide:
+                        continue
+                    facts = eng.path_facts(p)
+                    mx = eng.INT_MAX_OF[x[1]]
+                    if not (eng.entails(facts, L(inner) - mx) and eng.entails(facts, Lin.const(-mx - 1) - L(inner))):
+                        bad = bad or ('the result %s is returned through an object of type %s: totals beyond %d (a 32-bit kind near its maximum, '
+                                      'or a varint frame of 2 GiB) come back truncated or negative although the frame was emitted' % (fmt(inner), x[1], mx))
+        ck.verdict(bad is None, 'C13.d', fn + ':width', cast.where(u.fn(fn)),
+                   'the reported total reaches the caller in full width' if bad is None else bad)
+    ck.floor('C13.d', 'entry points returning a total', nfn, 8)
+
     # ---- C13.d encode_prefix refusal and flenp_memory_to_sink totals --------------------
     fn = 'encode_prefix'
     ps = paths(fn)
